@@ -24,10 +24,10 @@ def run(pid, tier, rule, assumptions):
     ])
     rng = random.Random(vlib.seed())
     docs = wg.gen_docs(rng, 700 if quick else 60000) + wg.gen_bulk()
-    # C02 also on a build that stores floating-point values in single precision (ARDUINOJSON_USE_DOUBLE=0): the
+    # C02 and C07 also on a build that stores floating-point values in single precision (ARDUINOJSON_USE_DOUBLE=0): the
     # doubles of these documents are exactly representable as floats, so the text still has to denote them
     fdocs, fbin = [], None
-    if pid == "C02":
+    if pid in ("C02", "C07"):
         fbin = vlib.build("writer_record-nodouble", "writer_record.cpp", defines=["ARDUINOJSON_USE_DOUBLE=0"], **flags)
         fdocs = [d for d in wg.gen_docs(rng, 300 if quick else 12000, f64_as_float=True) if d.get("cls") != "mpraw"]
     parts = 12
